@@ -164,7 +164,7 @@ MData ==
        IN /\ Fail(IF Ev.before # mflags THEN "FlagsChangedWithoutAck" ELSE IF d # "ok" THEN d ELSE Quiet)
           /\ mflags' = Ev.after
           /\ UNCHANGED <<mref, mhasref, mlastok, macc, mid, mcfg, msess, mlisten, mconn, msamples, mlsamples, myields, mdisc, mstopped, mearly,
-                         mdrained>>
+                         mdrained, muser>>
           /\ Conform(/\ D!Data(id, SubSeq(Ev.wire, 2, 4), SubSeq(Ev.wire, 5, Len(Ev.wire)))
                      /\ obs'.types = Ev.types /\ obs'.gots = Ev.gots
                      /\ StMatch)
